@@ -258,12 +258,12 @@ Hypothesis L : elevel pc cur.
 Let Hrel : lvl_rel pc cur := el_rel pc cur L.
 
 (** one value of a pending option: the count moves on, [ValueDone] when the range's maximum is reached *)
-Lemma eng_value_step v a r pi j evaf : no_sub pc v -> plain_tok v -> a_num a = Some r ->
+Lemma eng_value_step v a r pi j evaf : no_sub pc v -> plain_tok v -> check_terminator a v = false -> a_num a = Some r ->
   shadow_step v cur pi false (Opt a j) evaf = SNext cur pi false (if j <? vmax r then Opt a (j + 1) else ValueDone) evaf.
 Proof.
-  intros Hns [He [Hl Hs]] Hn. unfold shadow_step. cbn [negb]. rewrite (eng_no_sub pc cur v _ Hrel Hns).
+  intros Hns [He [Hl Hs]] Hct Hn. unfold shadow_step. cbn [negb]. rewrite (eng_no_sub pc cur v _ Hrel Hns).
   rewrite lex_is_escape, He, lex_to_long, Hl, lex_to_short, Hs.
-  unfold EngineModel.parse_opt_value. rewrite Hn.
+  unfold EngineModel.parse_opt_value. rewrite is_value_terminator_check, Hct, Hn.
   destruct (opt_allows_hyphen (Opt a j) v); reflexivity.
 Qed.
 
@@ -272,8 +272,8 @@ Lemma eng_values_full a r pi evaf : a_num a = Some r -> forall vs j, vs <> [] ->
   shadow_run vs cur pi false (Opt a j) evaf = SNext cur pi false ValueDone evaf.
 Proof.
   intros Hn. induction vs as [|v t IH]; intros j Hne Hall Hlen; [contradiction|].
-  inversion Hall as [|v0 t0 [Hns [Hpl _]] Hall']; subst. cbn [shadow_run].
-  rewrite (eng_value_step v a r pi j evaf Hns Hpl Hn).
+  inversion Hall as [|v0 t0 [Hns [Hpl Hct]] Hall']; subst. cbn [shadow_run].
+  rewrite (eng_value_step v a r pi j evaf Hns Hpl Hct Hn).
   destruct t as [|v' t'].
   - cbn [length] in Hlen. replace (j <? vmax r) with false by (symmetry; apply N.ltb_ge; lia). reflexivity.
   - replace (j <? vmax r) with true by (symmetry; apply N.ltb_lt; cbn [length] in Hlen; lia).
@@ -286,8 +286,8 @@ Lemma eng_values_open a r pi evaf : a_num a = Some r -> forall vs j, Forall (val
 Proof.
   intros Hn. induction vs as [|v t IH]; intros j Hall Hlen.
   - cbn [shadow_run length N.of_nat]. rewrite N.add_0_r. reflexivity.
-  - inversion Hall as [|v0 t0 [Hns [Hpl _]] Hall']; subst. cbn [shadow_run].
-    rewrite (eng_value_step v a r pi j evaf Hns Hpl Hn).
+  - inversion Hall as [|v0 t0 [Hns [Hpl Hct]] Hall']; subst. cbn [shadow_run].
+    rewrite (eng_value_step v a r pi j evaf Hns Hpl Hct Hn).
     replace (j <? vmax r) with true by (symmetry; apply N.ltb_lt; cbn [length] in Hlen; lia).
     rewrite IH; [|exact Hall'|cbn [length] in *; lia].
     replace (j + 1 + N.of_nat (length t)) with (j + N.of_nat (length (v :: t))) by (cbn [length]; lia). reflexivity.
@@ -401,45 +401,83 @@ Proof.
     + discriminate.
 Qed.
 
-(** * A value terminator is unknown to the engine *)
+(** * Value terminators: finding C18-value-terminator, before and after the repair *)
 Module Term.
 Definition w_opt : bytes := [111; 112; 116].
 Definition w_sub : bytes := [115; 117; 98].
 Definition w_so : bytes := [115; 111].
+Definition w_pf : bytes := [112; 102].
+Definition w_files : bytes := [102; 105; 108; 101; 115].
 Definition semi : bytes := [59].
+Definition sub : cmd :=
+  (cmd_new w_sub) <| c_args := [ (arg_new w_so) <| a_long := Some w_so |> <| a_action := Some ASetTrue |> ] |>.
 (** p(--opt <v>{1..3}, value_terminator ";") -> sub(--so) *)
 Definition c0 : cmd :=
   (cmd_new [112])
     <| c_args := [ (arg_new w_opt) <| a_long := Some w_opt |> <| a_action := Some ASet |>
                      <| a_num := Some {| vmin := 1; vmax := 3 |} |> <| a_term := Some semi |> ] |>
-    <| c_subs := [ (cmd_new w_sub) <| c_args := [ (arg_new w_so) <| a_long := Some w_so |> <| a_action := Some ASetTrue |> ] |> ] |>.
-Definition ddopt : bytes := 45 :: 45 :: w_opt.
+    <| c_subs := [ sub ] |>.
+(** p(--pf; <files>{1..}, value_terminator ";") -> sub(--so) *)
+Definition c1 : cmd :=
+  (cmd_new [112])
+    <| c_args := [ (arg_new w_pf) <| a_long := Some w_pf |> <| a_action := Some ASetTrue |>;
+                   (arg_new w_files) <| a_action := Some ASet |>
+                     <| a_num := Some {| vmin := 1; vmax := usize_max |} |> <| a_term := Some semi |> ] |>
+    <| c_subs := [ sub ] |>.
+Definition dd (w : bytes) : bytes := 45 :: 45 :: w.
+Definition ddopt : bytes := dd w_opt.
 Definition line : list bytes := [ddopt; [97]; semi; w_sub].
+Definition line1 : list bytes := [[97]; semi; w_sub].
 Definition has_cand (v : bytes) (i : cid) (r : cres) : bool :=
   match r with COk l => existsb (fun cd => beq (cd_value cd) v && opt_cid_eqb (cd_id cd) (Some i)) l | _ => false end.
-Definition walk_at (args : list bytes) (i : N) : option (bytes * N) :=
-  match build_full (build_fuel c0) c0 with
-  | BOk b => match start_walk b args i with
-             | WAt _ cur _ ValueDone false _ => Some (c_name cur, 0)
-             | WAt _ cur _ (Opt _ k) false _ => Some (c_name cur, k)
-             | _ => None end
+(** where the walk stands: level, and 0 = [ValueDone] / the count of the [Opt] or [Pos] state *)
+Definition stands (w : walk) : option (bytes * N) :=
+  match w with
+  | WAt _ cur _ ValueDone false _ => Some (c_name cur, 0)
+  | WAt _ cur _ (Opt _ k) false _ => Some (c_name cur, k)
+  | WAt _ cur _ (Pos _ k) false _ => Some (c_name cur, k)
   | _ => None end.
+Definition walk_at (c : cmd) (args : list bytes) (i : N) : option (bytes * N) :=
+  match build_full (build_fuel c) c with BOk b => stands (start_walk b args i) | _ => None end.
+Definition walk_at_before (c : cmd) (args : list bytes) (i : N) : option (bytes * N) :=
+  match build_full (build_fuel c) c with BOk b => stands (start_walk_before_termfix b args i) | _ => None end.
 Definition kind_of (o : outcome) : option ekind := match o with OErr e => Some (e_kind e) | _ => None end.
 Definition chain_of (o : outcome) : option (list bytes) := match o with OOk m => Some (Globals.chain m) | _ => None end.
 End Term.
 
-(** `p --opt a ; <TAB>`: the parser has closed the occurrence at the terminator ([ValuesDone]); the engine counts `;`
-    as the second value and stands in [Opt _ 3].  `p --opt a ; sub <TAB>`: the parser ACCEPTS the line and has
-    dispatched to `sub`; for the engine `sub` is the third value, it stays at `p` and offers `--opt` (id arg::opt)
-    of `p`; the completed line `p --opt a ; sub --opt` is rejected: UnknownArgument.  (The premise
-    [check_terminator a v = false] of [value_tok] cannot be dropped; same on the real crate:
+(** BEFORE / AFTER.  Option, `p(--opt <v>{1..3} terminator ";") -> sub(--so)`: the parser ACCEPTS `p --opt a ; sub` and has
+    dispatched to `sub` (the terminator closed the occurrence and was dropped).  Before the repair the engine counted `;` as
+    the second value ([Opt _ 3] behind `p --opt a ;`), took `sub` for the third, stayed at `p` and offered `--opt`
+    (id arg::opt) of `p`; the completed line `p --opt a ; sub --opt` is rejected: UnknownArgument.  After: behind
+    `p --opt a ;` the engine stands in [ValueDone] at `p`, behind `p --opt a ; sub` at `sub`; it offers `--so` and not `--opt`,
+    and `p --opt a ; sub --so` is accepted.
+    Positional, `p(--pf; <files>{1..} terminator ";") -> sub(--so)`: the same with `p a ; sub`: before, [Pos _ 3] at `p`, `--pf`
+    offered, `p a ; sub --pf` UnknownArgument; after, [ValueDone] at `sub`.  (Same on the real crate:
     corpus/C18/accept.value-terminator.cases) *)
-Theorem terminator_refuted :
-  Term.walk_at ([112] :: [Term.ddopt; [97]; Term.semi] ++ [[]]) 4 = Some ([112], 3) /\
+Theorem terminator_before_after :
+  (* option: the parser *)
   Term.chain_of (parse_top Term.c0 ([112] :: Term.line)) = Some [Term.w_sub] /\
-  Term.walk_at ([112] :: Term.line ++ [[45; 45]]) 5 = Some ([112], 0) /\
-  Term.has_cand Term.ddopt (IdArg Term.w_opt) (complete_model [] Term.c0 ([112] :: Term.line ++ [[45; 45]]) 5) = true /\
-  Term.kind_of (parse_top Term.c0 ([112] :: Term.line ++ [Term.ddopt])) = Some EUnknownArgument.
+  Term.kind_of (parse_top Term.c0 ([112] :: Term.line ++ [Term.ddopt])) = Some EUnknownArgument /\
+  Term.chain_of (parse_top Term.c0 ([112] :: Term.line ++ [Term.dd Term.w_so])) = Some [Term.w_sub] /\
+  (* option: before *)
+  Term.walk_at_before Term.c0 ([112] :: [Term.ddopt; [97]; Term.semi] ++ [[]]) 4 = Some ([112], 3) /\
+  Term.walk_at_before Term.c0 ([112] :: Term.line ++ [[45; 45]]) 5 = Some ([112], 0) /\
+  Term.has_cand Term.ddopt (IdArg Term.w_opt) (complete_model_before_termfix [] Term.c0 ([112] :: Term.line ++ [[45; 45]]) 5) = true /\
+  (* option: after *)
+  Term.walk_at Term.c0 ([112] :: [Term.ddopt; [97]; Term.semi] ++ [[]]) 4 = Some ([112], 0) /\
+  Term.walk_at Term.c0 ([112] :: Term.line ++ [[45; 45]]) 5 = Some (Term.w_sub, 0) /\
+  Term.has_cand Term.ddopt (IdArg Term.w_opt) (complete_model [] Term.c0 ([112] :: Term.line ++ [[45; 45]]) 5) = false /\
+  Term.has_cand (Term.dd Term.w_so) (IdArg Term.w_so) (complete_model [] Term.c0 ([112] :: Term.line ++ [[45; 45]]) 5) = true /\
+  (* positional: the parser *)
+  Term.chain_of (parse_top Term.c1 ([112] :: Term.line1)) = Some [Term.w_sub] /\
+  Term.kind_of (parse_top Term.c1 ([112] :: Term.line1 ++ [Term.dd Term.w_pf])) = Some EUnknownArgument /\
+  (* positional: before *)
+  Term.walk_at_before Term.c1 ([112] :: Term.line1 ++ [[45; 45]]) 4 = Some ([112], 3) /\
+  Term.has_cand (Term.dd Term.w_pf) (IdArg Term.w_pf) (complete_model_before_termfix [] Term.c1 ([112] :: Term.line1 ++ [[45; 45]]) 4) = true /\
+  (* positional: after *)
+  Term.walk_at Term.c1 ([112] :: Term.line1 ++ [[45; 45]]) 4 = Some (Term.w_sub, 0) /\
+  Term.has_cand (Term.dd Term.w_pf) (IdArg Term.w_pf) (complete_model [] Term.c1 ([112] :: Term.line1 ++ [[45; 45]]) 4) = false /\
+  Term.has_cand (Term.dd Term.w_so) (IdArg Term.w_so) (complete_model [] Term.c1 ([112] :: Term.line1 ++ [[45; 45]]) 4) = true.
 Proof. vm_compute. repeat split; reflexivity. Qed.
 
 (** STATE AGREEMENT on one item of the wider class, both machines *)
